@@ -261,6 +261,10 @@ mod verif_native {
             vec![], vec![(a, vec![])], vec![(a, vec![k])], vec![(a, vec![k, k])], vec![(a, vec![k, k, l])], vec![(a, vec![l, k, k, k])], vec![(a, vec![k, l, k])],
             vec![(a, vec![k]), (a, vec![k])], vec![(a, vec![]), (a, vec![])], vec![(b, vec![z, z]), (a, vec![f, z, f])], vec![(a, vec![z]), (b, vec![]), (a, vec![z, f])],
             vec![(a, vec![k; 8])], vec![(a, vec![k, l]); 5],
+            // item counts on both sides of 16 / 17 / 32 / 64 / 256 (a list of many items, distinct keys so that nothing can be dropped unnoticed)
+            vec![(a, (0..16u8).map(|i| [i; 32]).collect())], vec![(a, (0..17u8).map(|i| [i; 32]).collect())], vec![(a, (0..40u8).map(|i| [i; 32]).collect())],
+            vec![(a, (0..=255u8).map(|i| [i; 32]).collect()), (b, (0..65u8).map(|i| [i ^ 0x55; 32]).collect())],
+            (0..17u8).map(|i| ([i; 20], vec![[i; 32]])).collect(), (0..33u8).map(|i| ([i; 20], vec![])).collect(), (0..70u8).map(|i| ([i; 20], vec![[i; 32]; (i % 3) as usize])).collect(),
         ];
         for kind in 1..3u8 {
             for shape in &shapes {
